@@ -32,7 +32,7 @@ TInit ==
     /\ l = 1
     /\ AInit(1, 1)
     /\ rk = <<>> /\ sub = 0 /\ burst = -1 /\ prog = [b |-> 0, at |-> <<>>]
-    /\ TLCSet(1, 1)
+    /\ TLCSet(1, 1) /\ TLCSet(2, "nothing consumed")
 
 TReset ==
     /\ Ev("Reset") /\ Adv
